@@ -299,7 +299,7 @@ class Enumerator:
         p = base.fork() if base is not None else Path()
         if env:
             p.env.update(env)
-        stateful = self._stateful(fi.node)
+        stateful = self._stateful(fi.node, fi)
         paths = self._block(fi.node.body, [p], fi, stateful)
         for q in paths:
             if q.exit is None:
@@ -313,7 +313,7 @@ class Enumerator:
         p = base.fork() if base is not None else Path()
         if env:
             p.env.update(env)
-        stateful = self._stateful(fi.node)
+        stateful = self._stateful(fi.node, fi)
         for n in _target_names(loop.target) if isinstance(loop, ast.For) else []:
             p.env.pop(n, None)
         paths = self._block(loop.body, [p], fi, stateful)
@@ -327,12 +327,35 @@ class Enumerator:
         return self._truth(e, p, fi, orig=e)
 
     # -- statements ---------------------------------------------------------------
-    def _stateful(self, fnode: ast.AST) -> Set[str]:
-        """Locals mutated in place or assigned inside loops: they keep their name."""
+    def _stateful(self, fnode: ast.AST, fi: Optional[FuncInfo] = None) -> Set[str]:
+        """Locals mutated in place or assigned inside loops: they keep their name.  A local handed to a callee that is going to be inlined and that mutates
+        the corresponding parameter in place is mutated, too."""
+        cache = self.__dict__.setdefault("_stateful_cache", {})
+        key = id(fnode)
+        if key in cache:
+            return set(cache[key])
+        cache[key] = set()  # recursion guard
         out: Set[str] = set()
         from .index import walk_own
 
         for n in walk_own(fnode):
+            if isinstance(n, ast.Call) and fi is not None and not (isinstance(n.func, ast.Attribute) and n.func.attr in MUTATORS):
+                try:
+                    cands, kind = self.rs.resolve_call(n, fi, count=False)
+                except Exception:
+                    cands, kind = [], "none"
+                if kind == "unique" and len(cands) == 1 and cands[0].name != "__init__" and cands[0].node is not fnode and self.o.inline(cands[0]):
+                    callee = cands[0]
+                    cs = self._stateful(callee.node, callee)
+                    if cs:
+                        try:
+                            b = bind(n, callee)
+                        except Exception:
+                            b = None
+                        if b is not None and not (b.star_args or b.star_kwargs):
+                            for k, v in b.bound.items():
+                                if k in cs and isinstance(v, ast.Name):
+                                    out.add(v.id)
             if isinstance(n, ast.Call) and isinstance(n.func, ast.Attribute) and n.func.attr in MUTATORS:
                 r = n.func.value
                 while isinstance(r, (ast.Subscript, ast.Attribute)):
@@ -372,6 +395,7 @@ class Enumerator:
                         out.add(b.id)
         out |= set(self.o.stateful_extra)
         out.discard("self")
+        cache[key] = set(out)
         return out
 
     def _block(self, stmts: Sequence[ast.stmt], paths: List[Path], fi: FuncInfo, stateful: Set[str]) -> List[Path]:
@@ -782,9 +806,16 @@ class Enumerator:
                     if q.exit is not None:
                         out.append((q, ast.Constant(value=None)))
                         continue
-                    e2 = _replace_node(e, n, v)
-                    # the replacement is already substituted; protect it from a second substitution by binding nothing new
-                    out.extend(self._value(e2, q, fi))
+                    # the inlined value stands for the call: it is bound to a temporary so that the calls INSIDE it (already recorded while the callee's
+                    # statements were read) are not recorded a second time when the enclosing expression is evaluated
+                    self._inl_counter = getattr(self, "_inl_counter", 0) + 1
+                    tmp = f"__inl{self._inl_counter}"
+                    q.env[tmp] = v
+                    e2 = _replace_node(e, n, ast.Name(id=tmp, ctx=ast.Load()))
+                    r2 = self._value(e2, q, fi)
+                    for q2, _v2 in r2:
+                        q2.env.pop(tmp, None)
+                    out.extend(r2)
                 return out
         self._record_calls(e, p, fi)
         return [(p, subst(e, p))]
@@ -832,8 +863,31 @@ class Enumerator:
         old_force = getattr(self, "_force_bool", False)
         self._force_bool = as_bool
         try:
-            stateful = self._stateful(callee.node)
-            res = self._block(callee.node.body, [q], callee, stateful)
+            stateful = self._stateful(callee.node, callee)
+            body = callee.node.body
+            # a parameter the callee mutates in place, bound to a (stateful) local of the caller, IS that local: the callee's statements are read with the
+            # caller's name, so that the mutation is recorded on the caller's variable (and the parameter name cannot capture a name of the caller)
+            caller_stateful = self._stateful(fi.node, fi)
+            own_names = {x.id for x in ast.walk(callee.node) if isinstance(x, ast.Name)} | {a.arg for a in callee.node.args.posonlyargs + callee.node.args.args + callee.node.args.kwonlyargs}
+            ren: Dict[str, str] = {}
+            for k, v in b.bound.items():
+                if k in stateful and isinstance(v, ast.Name) and strip_v(v.id) in caller_stateful and (strip_v(v.id) == k or strip_v(v.id) not in own_names) and strip_v(v.id) not in ren.values():
+                    ren[k] = strip_v(v.id)
+            if ren:
+                rcache = self.__dict__.setdefault("_renamed_bodies", {})
+                rkey = (id(callee.node), tuple(sorted(ren.items())))
+                if rkey not in rcache:
+                    nb = copy.deepcopy(callee.node.body)
+                    for st_ in nb:
+                        for x in ast.walk(st_):
+                            if isinstance(x, ast.Name) and x.id in ren:
+                                x.id = ren[x.id]
+                    rcache[rkey] = nb
+                body = rcache[rkey]
+                for k in ren:
+                    q.env.pop(k, None)
+                stateful = (set(stateful) - set(ren)) | set(ren.values())
+            res = self._block(body, [q], callee, stateful)
         finally:
             self._force_bool = old_force
         out = []
